@@ -3059,7 +3059,14 @@ def emit(ast: Program) -> str:
                     globals_.append(line)
 
     function_sections: List[str] = []
-    for fn in getattr(ast, "functions", []):
+    functions = list(getattr(ast, "functions", []))
+    if len(functions) > 1:
+        # forward declarations: a helper may call one that is defined further down (or another typed variant of itself)
+        for fn in functions:
+            params_src = ", ".join(f"{ptype} {name}" for name, ptype in fn.params)
+            function_sections.append(f"{fn.return_type} {fn.name}({params_src});\n")
+        function_sections.append("\n")
+    for fn in functions:
         params_src = ", ".join(f"{ptype} {name}" for name, ptype in fn.params)
         header = f"{fn.return_type} {fn.name}({params_src}) {{\n"
         body_lines = _emit_block(
